@@ -203,3 +203,113 @@ def kinds_covered(descs):
         for r in d:
             S.kinds_of(r[1], acc)
     return acc
+
+
+# --------------------------------------------------------------------------------------------------
+# C05: curated cut grammars
+# --------------------------------------------------------------------------------------------------
+
+def _T(s):
+    return ('tok', s)
+
+
+def _seq(*xs):
+    xs = [x for x in xs if x is not None]
+    return xs[0] if len(xs) == 1 else ('seq', tuple(xs))
+
+
+def _ch(*xs):
+    return ('choice', tuple(xs))
+
+
+_CUT = ('cut',)
+
+
+def _with_cut(elems, pos):
+    """the sequence `elems` with `~` inserted before element `pos` (pos == len: at the end; None: no cut)"""
+    if pos is None:
+        return _seq(*elems)
+    return _seq(*elems[:pos], _CUT, *elems[pos:])
+
+
+def _cut_contexts(X, tag):
+    """X: an expression (sequence 'a' 'b' with a cut somewhere).  Every context of the C05 quantifier.
+    The alternatives / continuations are chosen so that (i) some input fails right after the cut and would
+    be accepted by a later alternative / by ending the repetition if the cut were ignored, and (ii) some
+    input is accepted only by backtracking OUTSIDE the cut's scope."""
+    a, b, c = _T('a'), _T('b'), _T('c')
+    ac = _seq(a, c)
+    out = []
+
+    def add(name, *rules):
+        out.append((f'{name}/{tag}', tuple(rules)))
+
+    # options of a choice: first, middle, last
+    add('option-first', ('start', _ch(X, ac, a)))
+    add('option-middle', ('start', _ch(c, X, ac)))
+    add('option-last', ('start', _ch(ac, X)))
+    add('option-then-eof', ('start', _seq(('group', _ch(X, ac)), ('eof',))))
+    # optional
+    add('optional', ('start', _seq(('opt', X), a, c)))
+    add('optional-in-option', ('start', _ch(_seq(('opt', X), a, c), _seq(a, a))))
+    add('optional-alone', ('start', ('opt', X)))
+    # closures: the continuation 'a' 'c' is what the input looks like when an iteration fails after 'a'
+    add('closure', ('start', _seq(('closure', X), a, c)))
+    add('positive-closure', ('start', _seq(('pclosure', X), a, c)))
+    add('closure-in-option', ('start', _ch(_seq(('closure', X), a, c), _seq(a, b, a))))
+    add('closure-in-optional', ('start', _seq(('opt', ('closure', X)), ('closure', a), ('closure', c))))
+    # joins / gathers: separator 'c'
+    for k in ('join', 'pjoin', 'gather', 'pgather'):
+        add(k, ('start', _seq((k, c, X), ('closure', c), ('closure', a))))
+        add(k + '-in-option', ('start', _ch(_seq((k, c, X), c), _seq(a, b, c, a))))
+    # nested choice inside a group: the cut commits the inner choice only
+    add('group-choice', ('start', _ch(_seq(('group', _ch(X, ac)), c), _seq(a, c, b), a)))
+    add('group-choice-in-closure', ('start', _seq(('closure', ('group', _ch(X, ac))), ('closure', a))))
+    # a group without a choice: "scoped to the nearest enclosing brackets (group, ...)"
+    add('group', ('start', _ch(_seq(('group', X), c), ac, a)))
+    add('skipgroup', ('start', _ch(_seq(('skipgroup', X), c), ac, a)))
+    add('named-group', ('start', _ch(_seq(('named', 'x', ('group', X)), c), ('named', 'y', ('group', ac)))))
+    # rule bodies: the callee contains its cut
+    add('rule', ('start', _ch(_seq(('call', 'r'), c), ac, a)), ('r', X))
+    add('rule-in-closure', ('start', _seq(('closure', ('call', 'r')), ('closure', a), ('closure', c))), ('r', X))
+    add('rule-with-choice', ('start', _ch(('call', 'r'), _seq(a, c, b))), ('r', _ch(X, ac)))
+    # lookaheads around a bracketed cut
+    add('lookahead', ('start', _ch(_seq(('la', ('group', X)), a), ac)))
+    add('negative-lookahead', ('start', _ch(_seq(('nla', ('group', X)), a, c), _seq(a, b))))
+    return out
+
+
+def cut_grammars():
+    a, b = _T('a'), _T('b')
+    out = []
+    for pos in (0, 1, 2):
+        X = _with_cut([a, b], pos)
+        out += _cut_contexts(X, f'cut@{pos}')
+    # the cut inside an inner optional / closure / choice of the body: contained there
+    c = _T('c')
+    inner = {
+        'inner-optional': _seq(a, ('opt', _seq(b, _CUT, c)), b),
+        'inner-closure': _seq(a, ('closure', _seq(b, _CUT, c)), b),
+        'inner-choice': _seq(a, ('group', _ch(_seq(b, _CUT, c), b)), b),
+    }
+    for tag, X in inner.items():
+        out += [(n, d) for n, d in _cut_contexts(X, tag)
+                if n.split('/')[0] in ('option-first', 'optional', 'closure', 'join', 'rule', 'group')]
+    # a cut in the separator of a join, and after the join
+    out.append(('join-sep-cut', (('start', _ch(_seq(('join', ('group', _seq(c, _CUT, c)), a), c), _seq(a, c, a))),)))
+    out.append(('gather-sep-cut', (('start', _ch(_seq(('gather', ('group', _seq(c, _CUT, c)), a), c), _seq(a, c, a))),)))
+    # two cuts, one per nesting level
+    out.append(('two-levels', (('start', _ch(_seq(a, _CUT, ('group', _ch(_seq(b, _CUT, c), b)), a), _seq(a, b, b))),)))
+    # the documented example: ','.{name '=' ~ expression}
+    out.append(('docs-parameters', (('start', _seq(('gather', c, _seq(a, b, _CUT, a)), ('closure', c), ('eof',))),)))
+    # the no-cut twins (a cut "never changes the result for an input that the committed path parses")
+    seen, res = set(), []
+    for n, d in out:
+        if d not in seen:
+            seen.add(d)
+            res.append((n, d))
+    return res
+
+
+CUT_GRAMMARS = tuple(cut_grammars())
+CUT_ALPHABET = 'abc'
